@@ -129,6 +129,18 @@ def chain_names(rng):
             if rng.random() < 0.5:
                 seq.append(rng.choice(['zz', 'or']))
         return names, (seq + ['q'] * 12)[:12]
+    if rng.random() < 0.2:
+        # a node with two continuations whose own suffix is the beginning of a third name: "p q b", "p q c z", "q c d" stored in
+        # any order, the text runs through "p q c d" (every child of a node needs the failure state of that node, not what is
+        # left of it after its sibling)
+        p_, q, b, c, z, d = rng.sample(['x', 'a', 'b', 'c', 'd', 'z', 'gnu', 'gpl', '2.0'], 6)
+        raw = [[p_, q, b], [p_, q, c, z], [q, c, d]] + ([[q, c]] if rng.random() < 0.3 else [])
+        rng.shuffle(raw)
+        names = [(' '.join(n_), i + 1) for i, n_ in enumerate(raw)]
+        seq = [p_, q, c, d] + [rng.choice([p_, q, b, c, z, d, 'zz']) for _ in range(8)]
+        if rng.random() < 0.5:
+            seq = [rng.choice(['zz', p_])] + seq
+        return names, seq[:12]
     words = ['a', 'b', 'c', 'd', 'e', 'f', 'g', '(', ')', 'İx', 'or']
     names = []
     k = rng.randint(2, 5)
